@@ -2,6 +2,7 @@ package resume
 
 import (
 	"bytes"
+	"fmt"
 	"time"
 
 	"gitee.com/Trisia/gotlcp/tlcp"
@@ -34,7 +35,9 @@ func identity(der []byte) string {
 	return "?"
 }
 
-func tlcpHandshake(dst string, server int, cs, ss []uint16, ccache, scache Cache[*tlcp.SessionState], fault string, seed uint64) HS {
+func tlcpDstKey(d int) string { return fmt.Sprintf("dst%d:443", d) }
+
+func tlcpHandshake(dst int, server int, cs, ss []uint16, ccache, scache Cache[*tlcp.SessionState], fault string, seed uint64) HS {
 	s := pki.Std()
 	rnd := hx.NewRand(seed)
 	ccfg := &tlcp.Config{RootCAs: s.Root.Pool, ServerName: "test.example", Time: pki.NowFn, CipherSuites: cs,
@@ -52,7 +55,7 @@ func tlcpHandshake(dst string, server int, cs, ss []uint16, ccache, scache Cache
 		scfg.SessionCache = scache
 	}
 	c, sv, ce, se, r := pair.TLCP(ccfg, scfg, func(ce, se *pair.StreamEnd) {
-		ce.SetAddrs("client:1", dst)
+		ce.SetAddrs("client:1", tlcpDstKey(dst))
 		damage := func(data []byte) [][]byte {
 			if tlcpHasCCS(data) {
 				return [][]byte{flipLast(data)}
@@ -105,7 +108,11 @@ var TLCP = Ops[*tlcp.SessionState]{
 	Make: func(id []byte, suite uint16, ms []byte) *tlcp.SessionState {
 		return tlcp.VerifMakeSession(id, tlcp.VersionTLCP, suite, ms)
 	},
+	MakePeer: func(id []byte, suite uint16, ms []byte, server int) *tlcp.SessionState {
+		return tlcp.VerifMakeSessionWithPeer(id, tlcp.VersionTLCP, suite, ms, ServerCerts(server))
+	},
 	Clone:     tlcp.VerifCloneSession,
+	DstKey:    tlcpDstKey,
 	Handshake: tlcpHandshake,
 	Identity:  identity,
 }
